@@ -161,6 +161,25 @@ pub fn dispatch(op: &str, t: &[&str]) -> Option<Out> {
             let v = random_qr(&z(t[0]));
             return Some(ok_ints(&[&v]));
         }
+        // the big-integer primitives the Gallina model re-implements, evaluated by rug / GMP / zkryptium's divm
+        "clprim" => {
+            use rug::ops::DivRounding;
+            let a = zl(t[1]);
+            let r: Integer = match t[0] {
+                "0" => Integer::from(a[0].pow_mod_ref(&a[1], &a[2]).unwrap()),
+                "1" => match a[0].invert_ref(&a[1]) { Some(x) => Integer::from(x), None => return Some(Out::Err) },
+                "2" => zkryptium::utils::util::cl03_utils::divm(&a[0], &a[1], &a[2]),
+                "3" => Integer::from(&a[0] % &a[1]),
+                "4" => { use digest::Digest; Integer::from_digits(sha2::Sha256::digest(a[0].to_string()).as_slice(), rug::integer::Order::MsfBe) }
+                "5" => Integer::from(a[0].significant_bits()),
+                "6" => Integer::from(a[0].sqrt_ref()),
+                "7" => Integer::from(a[0].gcd_ref(&a[1])),
+                "8" => Integer::from(if a[0].is_probably_prime(30) != rug::integer::IsPrime::No { 1 } else { 0 }),
+                "9" => a[0].clone().div_floor(&a[1]),
+                _ => panic!("clprim: unknown primitive"),
+            };
+            return Some(ok_ints(&[&r]));
+        }
         _ => {}
     }
     if t.is_empty() {
